@@ -322,7 +322,7 @@ pub struct Scenario {
 /// real checks with stable signatures, but `--scenario all` inside ONE process skips them
 /// because a lost wake-up ends the process; name them explicitly or use `all+known`
 /// (run_sanitized.py gives every scenario its own process and includes them).
-pub const KNOWN_DEFECT_SCENARIOS: &[&str] = &["worker_clone"];
+pub const KNOWN_DEFECT_SCENARIOS: &[&str] = &[];
 
 pub fn scenarios() -> Vec<Scenario> {
     let mut v = Vec::new();
